@@ -71,12 +71,18 @@ func (r *Reader) Read() (seq.Sequence, error) {
 	for {
 		var err error
 		if buff, isPrefix, err = r.r.ReadLine(); err != nil {
-			if err != io.EOF || r.working == nil {
-				return nil, err
+			if err != io.EOF || len(line) == 0 {
+				if err != io.EOF || r.working == nil {
+					return nil, err
+				}
+				s, err = r.working, r.err
+				r.working = nil
+				return s, err
 			}
-			s, err = r.working, r.err
-			r.working = nil
-			return s, err
+			// The input ended directly after a line that filled the
+			// read buffer exactly: the pending fragments are the
+			// unterminated last line.
+			buff, isPrefix = nil, false
 		}
 		line = append(line, buff...)
 		if isPrefix {
